@@ -36,8 +36,15 @@ namespace
     explicit Gen(uint64_t seed) : s(seed * 0x9E3779B97F4A7C15ull + 77) {}
     uint64_t next() { s ^= s << 13; s ^= s >> 7; s ^= s << 17; return s; }
     Index idx(Index n) { return n == 0 ? 0 : Index(next() % n); }
-    // values: non-zero dyadic rationals k/8, |k| < 2^20: exact in float and double, survive every type conversion
-    double val() { long k = long(next() % 2000000ull) - 1000000; if(k == 0) k = 3; return double(k) / 8.0; }
+    // values: dyadic rationals k/8, |k| < 2^20: exact in float and double, survive every type conversion; with a
+    // per-run probability a stored value is an explicit zero (rows zeroed by a filter, partly filled layouts) - a
+    // stored zero belongs to the pattern and has to come back as a stored entry
+    unsigned zero_per_16 = 0;
+    double val()
+    {
+      if(zero_per_16 != 0 && unsigned(next() % 16ull) < zero_per_16) return 0.0;
+      long k = long(next() % 2000000ull) - 1000000; if(k == 0) k = 3; return double(k) / 8.0;
+    }
   };
 
   // reference copy of a container: everything Container stores
@@ -400,9 +407,13 @@ std::string harness_run()
   sh.cols = Index(sim::cfg_int("cols", 1, 24));
   sh.density = int(sim::cfg_weighted("density", {2, 2, 3, 3})) * 300;   // 0 = no entries at all
   uint64_t gseed = uint64_t(sim::cfg_int("gen", 0, 1 << 30));
+  static const unsigned zp[4] = {0u, 0u, 2u, 6u};
+  const unsigned zero_per_16 = zp[sim::cfg_weighted("stored_zeros", {2, 0, 1, 1})];
+  if(zero_per_16) sim::probe("values_with_stored_zeros");
   if(sh.n == 0) ++CNT.zero_size;
   sim::spawn("io", [=]() {
     Gen g(gseed);
+    g.zero_per_16 = zero_per_16;
     switch(types)
     {
     case 0: run_types<double, std::uint64_t>(kind, g, sh); break;
